@@ -20,6 +20,7 @@ def run(ctx):
     unitspec.storage_pair(ctx, 'C06.R3', 'C06.R3')
     factories(ctx)
     unitspec.prefix_table(ctx, 'C06.R5')
+    unitspec.memoisation_discipline(ctx, 'C06.R1')
     return {'explanation': 'Abstract interpretation of Unit.convert_from over scaled units of measure: each of the '
                            '3 kinds x 4 x 4 cells is run with a symbolic amount and symbolic SI prefixes on both '
                            'sides; a cell must return a value in exactly <to-prefix>*<to-unit> (this fixes the factor: '
